@@ -295,19 +295,52 @@ def _counter_ok(ctx, f, cexpr, guard_node, ev, counter_fields):
     return f"`{norm(cexpr)}` is not the evaluation counter"
 
 
+FILTER_FIELDS = ("_fun_filter", "_x_filter", "_maxcv_filter")
+
+
+def empty_filter_branch(kind, test):
+    """is the branch (`kind` = if-true / if-false of `test`) taken only when a
+    filter list is empty?  Spellings: len(F) == 0, len(F) <= 0, len(F) < 1,
+    0 == len(F), not F, not len(F), and the else branch of F / len(F) / len(F) > 0."""
+    def is_len(e):
+        return isinstance(e, ast.Call) and isinstance(e.func, ast.Name) and e.func.id == "len" and len(e.args) == 1 and is_list(e.args[0])
+
+    def is_list(e):
+        return isinstance(e, ast.Attribute) and e.attr in FILTER_FIELDS
+
+    def empty(t):
+        """True: t holds iff empty; False: t holds iff non-empty; None: unknown"""
+        if isinstance(t, ast.UnaryOp) and isinstance(t.op, ast.Not):
+            r = empty(t.operand)
+            return None if r is None else not r
+        if is_list(t) or is_len(t):
+            return False
+        p = _cmp_parts(t)
+        if p:
+            l, op, r = p
+            if is_len(r) and const_value(l) is not None:
+                l, r = r, l
+                op = {"<": ">", ">": "<", "<=": ">=", ">=": "<=", "==": "==", "!=": "!="}.get(op, op)
+            if is_len(l) and const_value(r) is not None:
+                c = const_value(r)
+                if (op, c) in (("==", 0), ("<=", 0), ("<", 1)):
+                    return True
+                if (op, c) in (("!=", 0), (">", 0), (">=", 1)):
+                    return False
+        return None
+    r = empty(test)
+    if r is None:
+        return False
+    return r if kind == "if-true" else (not r if kind == "if-false" else False)
+
+
 def _first_evaluation(ctx, f, ev, cfg, nid, sites):
     """(b) first evaluation of the run."""
     # (b2) under the empty-filter test in the class of the evaluation routine
     for kind, what, n in enclosing_context(ev.stmt, f.node):
-        if kind == "if-true":
-            p = _cmp_parts(what)
-            if p and isinstance(p[0], ast.Call) and isinstance(p[0].func, ast.Name) and p[0].func.id == "len" and const_value(p[2]) == 0 and p[1] in ("==", "<="):
-                if mentions(p[0], "_fun_filter", "_x_filter", "_maxcv_filter") and f.cls is not None and f.cls.name == "Problem":
-                    if _filter_grows_on_empty(ctx):
-                        return "first evaluation: made only when the filter is empty, and every evaluation leaves the filter non-empty"
-            if isinstance(what, ast.UnaryOp) and isinstance(what.op, ast.Not) and mentions(what.operand, "_fun_filter", "_x_filter", "_maxcv_filter"):
-                if _filter_grows_on_empty(ctx):
-                    return "first evaluation: made only when the filter is empty"
+        if empty_filter_branch(kind, what) and f.cls is not None and f.cls.name == "Problem":
+            if _filter_grows_on_empty(ctx):
+                return "first evaluation: made only when the filter is empty, and every evaluation leaves the filter non-empty"
     # (b1) not in a loop, no other evaluation can precede it
     if enclosing_loops(ev.node, stop=f.node):
         return None
